@@ -331,6 +331,9 @@ Proof. destruct c; repeat split. Qed.
 
 Definition is_profiles_op (o : op) : bool := match o with OProfiles _ => true | _ => false end.
 
+Lemma flatten_nil_raw ps : flatten ps [] = [].
+Proof. induction ps as [|p r IH]; [reflexivity|]. rewrite flatten_cons. simpl. exact IH. Qed.
+
 Lemma apply_op_inv c o : inv c -> inv (fst (apply_op all_off c o)).
 Proof.
   intros [W V]. destruct o; simpl.
@@ -345,6 +348,8 @@ Proof.
   - destruct c; split; assumption.
   - destruct c; split; assumption.
   - destruct c; split; assumption.
+  - destruct c; split; assumption.
+  - destruct c; simpl. split; [constructor|]. simpl. symmetry. apply flatten_nil_raw.
 Qed.
 
 Lemma apply_op_profiles c o :
@@ -360,6 +365,8 @@ Proof.
     + destruct (with_vars_facts c (merge_vars (c_vars c) (valued l))) as [R [P _]].
       rewrite <- P. apply batch_inv. rewrite R. exact W.
     + apply batch_inv. exact W.
+  - destruct c; reflexivity.
+  - destruct c; reflexivity.
   - destruct c; reflexivity.
   - destruct c; reflexivity.
   - destruct c; reflexivity.
@@ -846,10 +853,10 @@ Qed.
 
 (* ================================================================== the deviations are real (computed witnesses) *)
 
-Definition q_only_stale := {| q_stale := true; q_fbsect := false; q_mkey := false; q_fmt := false; q_metanl := false |}.
-Definition q_only_fbsect := {| q_stale := false; q_fbsect := true; q_mkey := false; q_fmt := false; q_metanl := false |}.
-Definition q_only_mkey := {| q_stale := false; q_fbsect := false; q_mkey := true; q_fmt := false; q_metanl := false |}.
-Definition q_only_fmt := {| q_stale := false; q_fbsect := false; q_mkey := false; q_fmt := true; q_metanl := false |}.
+Definition q_only_stale := {| q_stale := true; q_fbsect := false; q_mkey := false; q_fmt := false; q_metanl := false; q_clear := false |}.
+Definition q_only_fbsect := {| q_stale := false; q_fbsect := true; q_mkey := false; q_fmt := false; q_metanl := false; q_clear := false |}.
+Definition q_only_mkey := {| q_stale := false; q_fbsect := false; q_mkey := true; q_fmt := false; q_metanl := false; q_clear := false |}.
+Definition q_only_fmt := {| q_stale := false; q_fbsect := false; q_mkey := false; q_fmt := true; q_metanl := false; q_clear := false |}.
 
 Definition w_stale_ops : list op :=
   [OUpdate (Upd "sa" "k1" "old" None "s" []) true; ODict (Some "sa") [("k1", "new"); ("zz", "2")] "dictionary" false].
@@ -883,7 +890,7 @@ Lemma fmt_witness :
   py_replace all_off [] None "{x:>8}" = Ok "{x:>8}".
 Proof. vm_compute. repeat split; reflexivity. Qed.
 
-Definition q_only_metanl := {| q_stale := false; q_fbsect := false; q_mkey := false; q_fmt := false; q_metanl := true |}.
+Definition q_only_metanl := {| q_stale := false; q_fbsect := false; q_mkey := false; q_fmt := false; q_metanl := true; q_clear := false |}.
 
 Definition w_meta_cfg : config :=
   run all_off [OUpdate (Upd "sa" "k1" "v" None "s" [("help", Some "some words of help that do not fit on one line")]) true]
@@ -893,3 +900,23 @@ Lemma metanl_witness :
   answer all_off w_meta_cfg (QReadBack 60 true) = AContent (Ok (view_content (c_view w_meta_cfg))) /\
   answer q_only_metanl w_meta_cfg (QReadBack 60 true) <> AContent (Ok (view_content (c_view w_meta_cfg))).
 Proof. split; [vm_compute; reflexivity|]. vm_compute. discriminate. Qed.
+
+Definition q_only_clear :=
+  {| q_stale := false; q_fbsect := false; q_mkey := false; q_fmt := false; q_metanl := false; q_clear := true |}.
+Definition w_clear_ops : list op :=
+  [OUpdate (Upd "sa" "k1" "v" None "s" []) true; OClear; OUpdate (Upd "sb" "k2" "w" None "s" []) true].
+
+Lemma clear_witness :
+  option_map e_val (lookup2 (c_view (run q_only_clear w_clear_ops (empty_config "cfg"))) "sa" "k1") = Some "v" /\
+  lookup2 (c_view (run all_off w_clear_ops (empty_config "cfg"))) "sa" "k1" = None.
+Proof. vm_compute. split; reflexivity. Qed.
+
+(* replacement uses the variables known NOW, whatever the entry's time of creation: the answer to QReplaced depends
+   on the configuration's current variables and the entry's text only *)
+Lemma replaced_uses_current_vars q c c' sn key d extra :
+  lookup2 (c_view c) sn key = lookup2 (c_view c') sn key -> c_vars c = c_vars c' ->
+  answer q c (QReplaced sn key d extra) = answer q c' (QReplaced sn key d extra).
+Proof. intros H V. simpl. rewrite H, V. reflexivity. Qed.
+
+Lemma clear_vars_forgets q c : c_vars (fst (apply_op q c OClearVars)) = [].
+Proof. destruct c; reflexivity. Qed.
